@@ -156,11 +156,16 @@ def gen_trace(seed, world, tier, mode=None, chunk=None):
             c["fault"] = {"utri_zero": idx}
     elif mode in ("sweep", "strided"):
         sysd = gen_system(R, 3 if mode == "sweep" else min(nmax, 6))
-        prec = "left_lu" if (mode == "sweep" or R.random() < 0.7) else "none"
-        A = sysd["A"] if storage == "dense" else dict(sysd["A"], storage="sparse")
-        cfg = {"tol": tol, "max_iter": None, "preconditioner": None if prec == "none" else prec}
-        call = {"k": "call", "obj": "s0", "meth": "solve", "args": [A, sysd["b"]],
-                "tags": {"scale": 0, "prec": prec, "cap": None, "storage": storage,
+        prec = "left_lu" if R.random() < 0.7 else "none"
+        # some sweeps stop after the first cycle(s): the published residual is then O(1) and a
+        # mishandled failure while it is being computed cannot hide behind a converged solve
+        cap = None if (prec == "left_lu" and R.random() < 0.7) or R.random() < 0.4 else R.choice([0, 0, 1])
+        sc = R.choice([0, 0, 3, -3])
+        A = _scaled(sysd["A"], sc)
+        A = A if storage == "dense" else dict(A, storage="sparse")
+        cfg = {"tol": tol, "max_iter": cap, "preconditioner": None if prec == "none" else prec}
+        call = {"k": "call", "obj": "s0", "meth": "solve", "args": [A, _scaled(sysd["b"], sc)],
+                "tags": {"scale": sc, "prec": prec, "cap": cap, "storage": storage,
                          "family": sysd["family"], "bkind": sysd["bkind"]}}
         sw = {"k": "sweep", "cls": "solver.QGMRESSolver", "cfg": cfg, "call": call}
         if mode == "sweep" and chunk is not None:
